@@ -29,6 +29,7 @@ func checkC15(p *Prog, r *Report) {
 	ruleC15Wire(p, r)
 	ruleC15Cut(p, r)
 	ruleC15Spaceless(p, a, r)
+	ruleC15OwnOptions(p, a, r)
 }
 
 // stringValueOf: the string a value denotes when that is fixed at compile time: a constant, a named constant, or a load
@@ -563,7 +564,7 @@ func keysOf(m map[string]bool) []string {
 // exactly the white-space runs that stand between two tags — evaluated on every string of up to 6 items over
 // {<a>, </a>, <br/>, x, space, LF, tab}.
 func ruleC15Spaceless(p *Prog, a *Anchors, r *Report) {
-	r.Begin("R-C15-SPACELESS", "spaceless: one constant pattern/replacement applied until nothing changes; evaluated on all strings of up to 6 items over {<a>,</a>,<br/>,<a LF b>,x,space,LF,tab} it deletes exactly the white-space runs that have a tag on both sides", 2)
+	r.Begin("R-C15-SPACELESS", "spaceless: one constant pattern/replacement applied until nothing changes; evaluated on all strings of up to 6 items over {<a>,</a>,<br/>,<a LF b>,<a t=\"x>y\">,x,space,LF,tab} it deletes exactly the white-space runs that have a tag on both sides", 2)
 	ex := p.Method("tagSpacelessNode", "Execute")
 	if ex == nil {
 		r.Unk("anchor", "-", "anchor unresolved: (*tagSpacelessNode).Execute")
@@ -600,7 +601,7 @@ func ruleC15Spaceless(p *Prog, a *Anchors, r *Report) {
 	}
 	// repeated: the replacement stands in a loop, or in a helper every call of which stands in one
 	iterated := inLoop(call) || calledInLoop(cluster, ex, call.Parent(), 0)
-	items := []string{"<a>", "</a>", "<br/>", "<a\nb>", "x", " ", "\n", "\t"}
+	items := []string{"<a>", "</a>", "<br/>", "<a\nb>", "<a t=\"x>y\">", "x", " ", "\n", "\t"}
 	isTag := func(s string) bool { return strings.HasPrefix(s, "<") }
 	isWS := func(s string) bool { return s == " " || s == "\n" || s == "\t" }
 	bad := ""
@@ -685,4 +686,88 @@ func strconvQuote(s string) string {
 	s = strings.ReplaceAll(s, "\n", `\n`)
 	s = strings.ReplaceAll(s, "\t", `\t`)
 	return `"` + s + `"`
+}
+
+// R-C15-OWNOPTS: "TrimBlocks/LStripBlocks … equals rendering the source from which that whitespace was deleted by hand":
+// the options that decide are those of the template the text is written in. A text node therefore reads them from a
+// template it keeps itself (the one it was parsed for), not from the execution context: ExecutionContext.template is
+// the root of the extends chain of the rendering (or the caller of an imported macro), so the text of a child
+// template's blocks would be trimmed by the base template's options.
+func ruleC15OwnOptions(p *Prog, a *Anchors, r *Report) {
+	r.Begin("R-C15-OWNOPTS", "a text node reads the TrimBlocks/LStripBlocks options from the template it was parsed for (a field of the node), never from the execution context's template", 1)
+	ex := p.Method("nodeHTML", "Execute")
+	if ex == nil {
+		r.Unk("anchor", "-", "anchor unresolved: (*nodeHTML).Execute")
+		return
+	}
+	n := 0
+	for _, f := range clusterOf(p, ex, 2) {
+		for _, b := range f.Blocks {
+			for _, in := range b.Instrs {
+				u, ok := in.(*ssa.UnOp)
+				if !ok || u.Op != token.MUL {
+					continue
+				}
+				fa, ok := u.X.(*ssa.FieldAddr)
+				if !ok {
+					continue
+				}
+				on := structOf(fa.X.Type())
+				if on == nil || on.Obj().Name() != "Options" {
+					continue
+				}
+				fld := fieldName(fa.X.Type(), fa.Field)
+				if fld != "TrimBlocks" && fld != "LStripBlocks" {
+					continue
+				}
+				n++
+				key := p.FuncName(topLevel(f)) + ":" + fld
+				// where the *Options comes from: <X>.Options with X a *Template loaded from …
+				src := ""
+				var walk func(v ssa.Value, d int)
+				walk = func(v ssa.Value, d int) {
+					if v == nil || d > 8 || src != "" {
+						return
+					}
+					v = stripLoad(v)
+					if pa, isP := v.(*ssa.Parameter); isP {
+						for _, s := range paramActualSites(p, pa) {
+							walk(s.val, d+1)
+						}
+						return
+					}
+					if phi, isPhi := v.(*ssa.Phi); isPhi {
+						for _, e := range phi.Edges {
+							walk(e, d+1)
+						}
+						return
+					}
+					base, tn, f2 := fieldLoadBase(v)
+					if tn == nil {
+						return
+					}
+					switch {
+					case tn.Obj().Name() == "ExecutionContext":
+						src = "ExecutionContext." + f2
+					case tn.Obj().Name() == "nodeHTML":
+						src = "node"
+					default:
+						walk(base, d+1)
+					}
+				}
+				walk(fa.X, 0)
+				switch src {
+				case "node":
+					r.OK(key, p.InstrPos(in), "read from the template the node keeps")
+				case "":
+					r.Assume(key, p.InstrPos(in), "origin of the options not followed")
+				default:
+					r.Bad(key, p.InstrPos(in), "the option is read through %s: that is the template the rendering runs on (the root of the extends chain, the caller of an imported macro), not the one this text was written in — the text of a child template's blocks is trimmed by the base template's options and the child's own options are ignored", src)
+				}
+			}
+		}
+	}
+	if n == 0 {
+		r.Unk("none", "-", "the text node does not read the TrimBlocks/LStripBlocks options")
+	}
 }
